@@ -13,12 +13,13 @@ var c14Alphabet = []Op{
 	{Op: "tune", V: -100}, // same value (resolved at build time)
 	{Op: "tune", V: 3},    // other value
 	{Op: "cancelctx"},
+	{Op: "add"}, // submit a job (numbered at build time): it must run iff/when the machine is Running
 }
 
 type c14Variant struct {
 	Ctx       bool
 	Expiry    int
-	Jobs      int // 0 none, 1 one gated job in flight + one pending
+	Jobs      int // 0 none, 1 two gated jobs in flight (pool saturated) + one pending, 2 one gated job in flight (a slot is free)
 	Initiated bool
 }
 
@@ -26,7 +27,7 @@ func c14Variants() []c14Variant {
 	var out []c14Variant
 	for _, ctx := range []bool{false, true} {
 		for _, ex := range []int{0, 1000} {
-			for _, jobs := range []int{0, 1} {
+			for _, jobs := range []int{0, 1, 2} {
 				out = append(out, c14Variant{Ctx: ctx, Expiry: ex, Jobs: jobs})
 			}
 			out = append(out, c14Variant{Ctx: ctx, Expiry: ex, Initiated: true})
@@ -46,6 +47,10 @@ func c14Case(v c14Variant, seq []int, sched Sched) *Case {
 	if v.Jobs == 1 && !v.Initiated {
 		ops = append(ops, Op{Op: "add", It: &Item{N: 1, Gated: true}}, Op{Op: "add", It: &Item{N: 2, Gated: true}}, Op{Op: "add", It: &Item{N: 3}}, Op{Op: "settle"})
 	}
+	if v.Jobs == 2 && !v.Initiated {
+		ops = append(ops, Op{Op: "add", It: &Item{N: 1, Gated: true}}, Op{Op: "settle"})
+	}
+	nextN := 100
 	// a small copy of the reference machine, only to aim the "same value" TunePool calls
 	cancelled := false
 	st, cur := "Running", 2
@@ -55,9 +60,15 @@ func c14Case(v c14Variant, seq []int, sched Sched) *Case {
 	for _, k := range seq {
 		op := c14Alphabet[k]
 		switch op.Op {
+		case "add":
+			nextN++
+			op.It = &Item{N: nextN}
 		case "cancelctx":
 			if !v.Ctx {
 				continue
+			}
+			if !cancelled && v.Jobs == 2 && !v.Initiated {
+				ops = append(ops, Op{Op: "release", N: 1})
 			}
 			if !cancelled && v.Jobs == 1 && !v.Initiated {
 				// the listener's Stop waits for the in-flight jobs: open their gates first
@@ -91,8 +102,13 @@ func c14Case(v c14Variant, seq []int, sched Sched) *Case {
 			ops = append(ops, Op{Op: "settle"})
 		}
 	}
+	// a settled point with the gated jobs still held: a job submitted during the sequence must not be stalled
+	ops = append(ops, Op{Op: "settle"})
 	if v.Jobs == 1 && !v.Initiated {
 		ops = append(ops, Op{Op: "release", N: 1}, Op{Op: "release", N: 2})
+	}
+	if v.Jobs == 2 && !v.Initiated {
+		ops = append(ops, Op{Op: "release", N: 1})
 	}
 	ops = append(ops, Op{Op: "settle"}, Op{Op: "add", It: &Item{N: c14Probe}}, Op{Op: "settle"})
 	c.Clients = [][]Op{ops}
@@ -128,6 +144,9 @@ func oC14(ix *Index) []Violation {
 		}
 		if c.Op == "add" && c.J == c14Probe {
 			probeSeen = true
+			continue
+		}
+		if c.Op == "add" || c.Op == "release" {
 			continue
 		}
 		if probeSeen {
@@ -212,6 +231,11 @@ func oC14(ix *Index) []Violation {
 		if c.Op == "tune" && wantErr == "" && int(c.RetEv.I) != conc {
 			out = append(out, v("C14", "concurrency", "after TunePool(%d) NumConcurrency() = %d", c.CallEv.I, c.RetEv.I))
 		}
+	}
+	// "never reports Running while unable to process jobs": no stalled job at any settled point
+	for _, x := range lostWakeups(ix, "C14") {
+		x.Oracle = "running-but-stalled"
+		out = append(out, x)
 	}
 	// the probe job runs iff the reference state is Running (and a queue is bound)
 	if j := ix.Jobs[c14Probe]; j != nil && j.Add.Returned() {
